@@ -136,7 +136,7 @@ fn hostile_shapes(quick: bool) -> Vec<(String, String, Option<String>)> {
         for i in 0..n {
             s.push_str(&format!("a{}[1] <- a{};\n", i, (i + 1) % n));
         }
-        s.push_str("print(\"built\\n\");\nprint(\"~\\n\", a0);\nprint(\"after\\n\");\n");
+        s.push_str("print(\"built\\n\");\nprint(\"pre ~ then ~\\n\", 1, a0);\nprint(\"after\\n\");\n");
         v.push((format!("array-ring-{}-print", n), s, None));
         // ring of objects through fields
         let mut s = String::new();
@@ -146,7 +146,7 @@ fn hostile_shapes(quick: bool) -> Vec<(String, String, Option<String>)> {
         for i in 0..n {
             s.push_str(&format!("o{}.next <- o{};\n", i, (i + 1) % n));
         }
-        s.push_str("print(\"built\\n\");\nprint(\"~\\n\", o0);\nprint(\"after\\n\");\n");
+        s.push_str("print(\"built\\n\");\nprint(\"pre ~ then ~\\n\", 2, o0);\nprint(\"after\\n\");\n");
         v.push((format!("object-ring-{}-print", n), s, None));
         // mixed: object -> array -> object …, cycle not printed but dispatched through / used in errors
         let mut s = String::new();
@@ -313,10 +313,14 @@ pub fn c10(ctx: &Ctx, rep: &mut Report) {
                     );
                 }
             } else if name.contains("ring") && name.ends_with("print") {
-                // printing a value that contains itself: either a clean failure after "built" …
+                // printing a value that contains itself: either the print fails — then stdout is
+                // exactly the output before it, nothing of the failing print — or it prints
+                // something finite and the program goes on
                 let o = run.out_str();
                 if !o.starts_with("built\n") {
                     rep.violation("C10:cyclic-print-output", format!("{}: output before the print is lost: {}", name, run.describe()), replay.clone());
+                } else if !run.success() && o != "built\n" {
+                    rep.violation("C10:cyclic-print-partial", format!("{}: the print of a self-containing value fails, yet part of its text reached stdout: {}", name, run.describe()), replay.clone());
                 }
             }
         }
@@ -332,6 +336,41 @@ pub fn c10(ctx: &Ctx, rep: &mut Report) {
                             rep.violation("C10:execute-differs", format!("{}: execute ends with {}, run with {}", name, e.describe(), run.describe()), replay.clone());
                         }
                     }
+                }
+            }
+        }
+    }
+    // (2a) a fixed list of invalid sources: each must be rejected as a whole — nothing runs, nothing
+    // reaches stdout, a diagnostic goes to stderr, the exit status is non-zero
+    let invalid: [&str; 48] = [
+        "2147483648", "-2147483649", "99999999999999999999", "let big = 4294967298", "array(4294967298, 7)", "print(\"\\q\")", "print(\"open", "/* open", "1 /* a */ */",
+        "a @ b", "a $ b", "a ? b", "let = 1", "1 +", "+ 1", "begin", "end", "begin 1", "1 end", "if a then", "if a 1", "then 1", "else 1", "f(1 2)", "f(1,,2)", "a.", ".a", "a..b",
+        "x <-", "<- 1", "let 1 = 2", "let x 1", "function (a) -> a", "function f(1) -> 1", "function f(a) a", "array(1)", "array(1, 2, 3)", "print(1)", "print()",
+        "a[1", "a]", "a b", "1 2", "while a b", "object extends begin end", "object begin 1 end", "a = 1", "let x = = 1",
+    ];
+    for (n, bad) in invalid.iter().enumerate() {
+        k += 1;
+        if !ctx.mine(k) {
+            continue;
+        }
+        for form in 0..2 {
+            let src = if form == 0 { format!("{}\n", bad) } else { format!("print(\"must not run\\n\");\n{};\nprint(\"nor this\\n\");\n", bad) };
+            let f = dir.join(format!("inv{}.fml", n));
+            if std::fs::write(&f, &src).is_err() {
+                continue;
+            }
+            rep.evaluations += 1;
+            let replay = json!({"check":"C10","source_b64": super::super::b64(src.as_bytes()), "rejected": true});
+            let run = if n % 3 == 0 { cli::fml_run_stdin(&src) } else { cli::fml_run_file(&f) };
+            rep.bump("c10-invalid-source-list", "sources");
+            if crash_freedom(rep, &format!("invalid#{}", n), "fml run", &run, &replay) {
+                rep.nontrivial(hash_str(&src));
+                if run.success() || !run.stdout.is_empty() {
+                    rep.violation(
+                        "C10:invalid-source-not-rejected",
+                        format!("invalid source {:?} is not rejected: `fml run` {}: {}", bad, if run.success() { "exits 0" } else { "prints to stdout" }, run.describe()),
+                        replay,
+                    );
                 }
             }
         }
@@ -436,7 +475,15 @@ pub fn c10(ctx: &Ctx, rep: &mut Report) {
         }
         rep.evaluations += 1;
         let replay_base = json!({"check":"C10","source_b64": super::super::b64(&bytes), "mutation": kind});
-        let parsed = String::from_utf8(bytes.clone()).ok().and_then(|s| real::parse(&s).ok());
+        // these mutations make the source invalid wherever they land (tokens are never inserted
+        // inside a string or comment): the verdict does not depend on what FML's parser thinks
+        let invalid_by_construction = ["unterminated-comment", "bad-escape", "huge-literal", "invalid-utf8", "stray-character"].contains(&kind);
+        let parsed = if invalid_by_construction { None } else { String::from_utf8(bytes.clone()).ok().and_then(|s| real::parse(&s).ok()) };
+        if invalid_by_construction {
+            rep.bump("c10-mutation-oracle", "invalid-by-construction");
+        } else {
+            rep.bump("c10-mutation-oracle", "classified-by-parser");
+        }
         let run = if i % 4 == 0 { cli::run(cli::Spec::new(&["run"]).stdin(&bytes)) } else { cli::fml_run_file(&f) };
         rep.bump("c10-mutation", kind);
         match parsed {
